@@ -630,6 +630,9 @@ def _persist_registry(rk):
     reg = _U["UnitRegistry"]()
     if rk == "default":
         return reg, "pc"
+    if rk.startswith("uni-"):
+        # default symbols whose canonical (printed) spelling is not ASCII, named here in their ASCII spelling
+        return reg, {"uni-micro": "um", "uni-ohm": "ohm", "uni-angstrom": "angstrom", "uni-degree": "degC", "uni-delta": "delta_degC"}[rk]
     if rk == "user":
         reg.add("code_length", 3.5e19, d.length)
         return reg, "code_length"
@@ -673,6 +676,8 @@ def _observe_persist(case):
         u = Unit(text, registry=reg)
     if ca == "array":
         obj = unyt.unyt_array([1.0, 2.0], u)
+    elif ca == "columns":
+        obj = [unyt.unyt_array([4.0, 5.0], "km"), unyt.unyt_array([1.0, 2.0], u)]
     elif ca == "quantity":
         obj = unyt.unyt_quantity(3.0, u)
     else:
@@ -696,6 +701,10 @@ def _observe_persist(case):
                 back = unyt.loadtxt(path)
             finally:
                 os.unlink(path)
+            if ca == "columns":
+                # the ASCII column next to it must come back as written, or the reading counts as "something else"
+                other_ok = len(back) == 2 and back[0].units == obj[0].units
+                back = back[1] if other_ok else back[0]
         elif rt == "string":
             back = unyt.unyt_quantity.from_string(obj.to_string(), unit_registry=reg)
         else:
@@ -708,6 +717,8 @@ def _observe_persist(case):
         # the re-read text, read against the re-read registry, must denote the same unit too
         v2 = Unit(str(v), registry=v.registry)
         r = {"o": "Ok", "dim": _dimvec(v.dimensions), "off": repr(float(v.base_offset)), "sc": _which(v, v2, u, stock), "text": ascii(str(v))}
+        if ca == "columns" and not other_ok:
+            r["sc"] = "other"
     except Exception as e:  # noqa: BLE001 - the reader refused
         exc = type(e).__name__
         r = {"o": "Raise", "dim": [], "off": "", "sc": "", "text": ""}
@@ -767,9 +778,62 @@ def _hist_forms(s, reg):
     return out, first
 
 
+def _hist_registry(kind):
+    """a fresh registry with the contents of a kind of Parser.tla (HRegs)."""
+    d = _U["dims"]
+    if kind == "bare":
+        reg = _U["UnitRegistry"](add_default_symbols=False)
+        reg.add("a", 1.7018, d.length, prefixable=True)
+        reg.add("in", 0.0254, d.length, prefixable=False)
+        reg.add("s", 2.5, d.time, prefixable=False)
+        return reg
+    reg = _U["UnitRegistry"]()
+    if kind == "plus":
+        reg.add("a", 1.7018, d.length, prefixable=True)
+        reg.add("in", 0.0254, d.length, prefixable=True)
+    elif kind == "minus":
+        reg.remove("m")
+    elif kind != "default":
+        raise ValueError(kind)
+    return reg
+
+
 def _observe_hist(case):
-    s, warmups = _hist_warmups(case["x"], case["j"], case["w"])
-    cold_reg = _U["UnitRegistry"]()
+    if case["w"] != "foreign":
+        return _observe_hist_here(case)
+    # process-wide state must not travel from case to case: a cold reading is cold for the whole process
+    import pickle as pk
+
+    r, w = os.pipe()
+    pid = os.fork()
+    if pid == 0:
+        try:
+            os.close(r)
+            try:
+                res = _observe_hist_here(case)
+            except BaseException as e:  # noqa: BLE001
+                res = {"_error": type(e).__name__ + ": " + str(e)[:300]}
+            with os.fdopen(w, "wb") as f:
+                f.write(pk.dumps(res))
+        finally:
+            os._exit(0)
+    os.close(w)
+    with os.fdopen(r, "rb") as f:
+        blob = f.read()
+    os.waitpid(pid, 0)
+    if not blob:
+        return {"_error": "history case: the forked reader died"}
+    return pk.loads(blob)
+
+
+def _observe_hist_here(case):
+    rk, qk = case.get("r", "default"), case.get("q", "same")
+    if case["w"] == "foreign":
+        s = H_JOINERS[case["j"] - 1].join(case["x"])
+        warmups = [jj.join(case["x"]) for jj in H_JOINERS]
+    else:
+        s, warmups = _hist_warmups(case["x"], case["j"], case["w"])
+    cold_reg = _hist_registry(rk)
     cold, first = _hist_forms(s, cold_reg)
     memo = True
     if first is not None:
@@ -777,16 +841,17 @@ def _observe_hist(case):
             memo = _U["Unit"](s, registry=cold_reg) is first
         except Exception:  # noqa: BLE001
             memo = False
-    warm_reg = _U["UnitRegistry"]()
+    warm_reg = _hist_registry(rk)
+    other = warm_reg if qk == "same" else _hist_registry(qk)
     for w in warmups:
-        _construct(w, warm_reg)
+        _construct(w, other)
     warm, _f = _hist_forms(s, warm_reg)
     for c, w in zip(cold, warm):
         w["sc"] = bool(c["o"] == "Ok" and w["o"] == "Ok" and _same_scale(c["bv"], w["bv"], 1e-12))
         c["sc"] = True
     for r in cold + warm:
         r["bv"] = repr(r["bv"])
-    return {"k": "hist", "t": case["t"], "j": case["j"], "w": case["w"], "s": ascii(s), "warmups": [ascii(w) for w in warmups], "cold": cold, "warm": warm, "memo": bool(memo)}
+    return {"k": "hist", "t": case["t"], "j": case["j"], "w": case["w"], "r": rk, "q": qk, "s": ascii(s), "warmups": [ascii(w) for w in warmups], "cold": cold, "warm": warm, "memo": bool(memo)}
 
 
 def _inner(case):
@@ -896,7 +961,7 @@ def _hang(case):
                 "r": {"o": "Hang", "dim": [], "off": "", "sc": "", "text": ""}, "exc": "Hang"}
     if case["k"] == "hist":
         z = [{"o": "Hang", "dim": [], "off": "", "bv": "0.0", "sc": False} for _ in range(3)]
-        return {"k": "hist", "t": case["t"], "j": case["j"], "w": case["w"], "s": "", "warmups": [], "cold": z, "warm": z, "memo": True}
+        return {"k": "hist", "t": case["t"], "j": case["j"], "w": case["w"], "r": case.get("r", "default"), "q": case.get("q", "same"), "s": "", "warmups": [], "cold": z, "warm": z, "memo": True}
     if case["k"] == "py":
         return {"k": "py", "h": case["h"], "tr": case["tr"], "w": case["w"], "warm": case["warm"], "iswarm": False, "o": "Hang", "ev": []}
     out = {"k": case["k"], "o": "Hang", "ev": []}
